@@ -159,6 +159,7 @@ def run(prog, rep, tier='quick'):
              'and modified is not True')
     rep.rule('O3-call-assigns-psd', 'every non-raising path of C.__call__ assigns the psd cache')
     rep.rule('O5-derivation-from-fresh-cache', 'a store to the psd cache whose value is computed from the raw cache field is preceded on its path by a refresh (psd getter or self())')
+    rep.rule('O8-sides-follows-layout', 'outside __init__ every path that writes the sides label also stores a cache value, sets modified=True, or runs with the cache known empty')
     rep.rule('O7-same-value-noop', 'for every scalar attribute the setter writes the backing field / sets modified only on a path guarded by a comparison of the stored value with the value being stored (old != new)')
     rep.rule('O6-N-follows-data', 'every store to the data length N is on a path that stores new data and takes its size')
     rep.rule('O4-range-paired', 'every path writing __NFFT (resp. __sampling) also updates _range.N (resp. '
@@ -234,11 +235,30 @@ def run(prog, rep, tier='quick'):
             spaths = ts.method_paths(C, setter)
             total_paths += len(spaths)
             swhere = loc(setter.mod, setter.node)
+            # does the getter hand out the stored object itself (`return self.<F>`)?  then the caller can edit it in place
+            exposed = any(isinstance(r_, ast.Return) and isinstance(r_.value, ast.Attribute) and isinstance(r_.value.value, ast.Name)
+                          and r_.value.value.id == 'self' for r_ in ast.walk(getter.node))
+            if a in ARRAY_ATTRS and exposed and ('O1a-ok', setter.qname) not in seen and \
+                    all(any(e[0] == 'wr' and e[1] == F for e in p_.events) for p_ in spaths if p_.end != 'raise'):
+                seen.add(('O1a-ok', setter.qname))
+                rep.proved('O1-setter-marks-modified', setter.qname, 'every non-raising path writes %s' % F,
+                           'no same-value shortcut in the setter of an array whose getter hands out the stored object', swhere)
             for p in spaths:
                 if p.end == 'raise':
                     continue
                 n_clear_sites += check_O2(rep, setter.qname, p, swhere, seen)
                 w = [e for e in p.events if e[0] == 'wr' and e[1] == F]
+                if not w and a in ARRAY_ATTRS and exposed:
+                    # O1 for array-valued attributes: there is no sound "same value" shortcut -- `obj.data *= g` edits the stored
+                    # array in place and then hands that very array to the setter, where it compares equal to itself
+                    key = ('O1a', setter.qname)
+                    if key not in seen:
+                        seen.add(key)
+                        rep.violation('O1-setter-marks-modified', setter.qname, 'path without a write of %s' % F,
+                                      'a non-raising path of the %s setter returns without storing the value and marking the PSD as modified; '
+                                      'the getter returns the stored array itself, so after an in-place edit (`obj.%s *= g`) the array the '
+                                      'setter receives IS the stored one and any equality shortcut skips the refresh' % (a, a),
+                                      swhere, p.describe())
                 if not w:
                     continue
                 fin = p.final_write('modified')
@@ -558,6 +578,48 @@ def run(prog, rep, tier='quick'):
                                           'self()) on this path: with an attribute change pending it converts an obsolete estimate, '
                                           'and the next read recomputes and discards the conversion', loc(f.mod, f.node), p.describe())
     rep.floor('cache derivations examined', n_o5, 1)
+    # O8: the `sides` label describes the layout of the stored PSD: outside __init__ it is written only together with a new
+    # cache value (conversion / freshly set PSD), on a path that marks the estimate as modified (the recomputation stores the
+    # default layout again), or while the cache is empty
+    SIDES_FIELD = '_Spectrum__sides'
+    n_o8 = 0
+    for D in hier:
+        for mname, mnode in D.methods.items():
+            if mname == '__init__':
+                continue
+            f = D.find_method(mname)
+            direct = {mangle(D.name, t.attr) for t in ast.walk(mnode)
+                      if isinstance(t, ast.Attribute) and isinstance(t.ctx, ast.Store)
+                      and isinstance(t.value, ast.Name) and t.value.id == 'self'}
+            if SIDES_FIELD not in direct:
+                continue
+            try:
+                paths = ts.method_paths(D, f)
+            except ExplosionError:
+                rep.undecided('O8-sides-follows-layout', f.qname, 'writes %s' % SIDES_FIELD, 'too many paths')
+                continue
+            for p in paths:
+                if p.end == 'raise':
+                    continue
+                if not any(e[0] == 'wr' and e[1] == SIDES_FIELD for e in p.events):
+                    continue
+                n_o8 += 1
+                fin = p.final_write('modified')
+                marks = fin is not None and _is_const(fin[2], True)
+                stores = any(e[0] == 'wr' and e[1] == PSD_FIELD for e in p.events)
+                ok = marks or stores or _psd_known_none(p)
+                key = ('O8', f.qname, ok, marks, stores)
+                if key in seen:
+                    continue
+                seen.add(key)
+                if ok:
+                    rep.proved('O8-sides-follows-layout', f.qname, 'writes %s (%s)' % (SIDES_FIELD, 'modified=True' if marks else
+                               ('with a new cache value' if stores else 'cache empty')), '', loc(f.mod, f.node), p.describe())
+                else:
+                    rep.violation('O8-sides-follows-layout', f.qname, 'writes %s' % SIDES_FIELD, 'a path relabels `sides` while the stored PSD '
+                                  'keeps its layout and is not marked for recomputation: frequencies() and the next conversion read the '
+                                  'cache under the wrong layout', loc(f.mod, f.node), p.describe())
+    rep.floor('sides-label writes examined', n_o8, 3)
     # Range itself: df recomputed from the current N and sampling after each change
     R = prog.cls('psd', 'Range')
     n_range = 0
